@@ -707,7 +707,7 @@ loop:
 }
 
 func run(c *eng.Ctx) error {
-	n := c.N(60, 1500)
+	n := c.N(60, 700)
 	c.Traces(n, func(t int, rng *rand.Rand) { trace(c, t, rng) })
 	skipped, _ := c.Stats["skipped"].(int)
 	c.Stats["traces"] = n
